@@ -283,6 +283,18 @@ def fields_read(t):
 
 def rule_H(F, R):
     lib = F.lib()
+    # BDD::get_hash hashes the diagram structurally (the derived Hash of `self`), so that equal diagrams hash equal wherever they live
+    gh = lib.thir.get('rsbdd::bdd::BDD::get_hash')
+    if gh is not None:
+        hs_calls = [e for e in walk(gh['body']) if e['k'] == 'Call' and callee_decl(e) == 'std::hash::Hash::hash']
+        okh = len(hs_calls) == 1
+        if okh:
+            a0 = hs_calls[0]['args'][0]
+            casts = [x for x in walk(a0) if x['k'] in ('Cast', 'PointerCoercion') or (x['k'] == 'Call' and (callee_name(x) or '').split('::')[-1] in ('as_ptr', 'addr_of', 'into_raw', 'from_ref'))]
+            b0 = strip(a0)
+            okh = not casts and b0['k'] in ('VarRef', 'UpvarRef') and 'BDD' in (hs_calls[0].get('callee', {}).get('res') or callee_name(hs_calls[0]) or '')
+        R.count('H:get_hash'); R.obligation(okh, 'H get_hash')
+        if not okh: R.violation('rsbdd::bdd::BDD::get_hash / H / structural hash', 'H', 'get_hash must feed the diagram itself (its derived, structural Hash) to the hasher - not an address or a part of it: equal diagrams must hash equal')
     def body(tr, m):
         return lib.thir.get(NS + tr + '>::' + m)
     eq = body('std::cmp::PartialEq', 'eq'); cmp = body('std::cmp::Ord', 'cmp'); hs = body('std::hash::Hash', 'hash'); pc = body('std::cmp::PartialOrd', 'partial_cmp')
